@@ -253,6 +253,13 @@ class _Fold(ast.NodeTransformer):
             return ast.Attribute(value=n.args[0], attr=n.args[1].value, ctx=ast.Load())
         return n
 
+    def visit_Compare(self, n):
+        self.generic_visit(n)
+        if len(n.ops) == 1 and isinstance(n.ops[0], (ast.Is, ast.IsNot)) and isinstance(n.left, ast.Constant) and isinstance(n.comparators[0], ast.Constant) \
+                and n.left.value is None and n.comparators[0].value is None:
+            return ast.Constant(value=isinstance(n.ops[0], ast.Is))       # a literal None written into an inlined helper's `x is None` test
+        return n
+
     def visit_Expr(self, n):
         self.generic_visit(n)
         c = n.value
@@ -342,19 +349,33 @@ class Inliner:
         self.counter = 0
         self.inlined = {}       # helper qualname -> number of call sites inlined
         self.helpers = {}
+        self.static = set()
         for q, (fn, owner) in self.funcs.items():
             if "#" in q or f"{rel}:{q}" in self.inv:
                 continue
             if owner is not None and f"{rel}:class {owner.name}" not in self.inv:
                 continue            # method of a new class: receiver type unknown at the call site
+            if owner is not None and len(fn.decorator_list) == 1 and isinstance(fn.decorator_list[0], ast.Name) and fn.decorator_list[0].id == "staticmethod":
+                # `self.helper(..)` on a static method: a plain function that happens to live in the class
+                saved_ = fn.decorator_list
+                fn.decorator_list = []
+                ok_ = _basic_ok(fn)
+                fn.decorator_list = saved_
+                if ok_:
+                    self.helpers[q] = (fn, owner)
+                    self.static.add(q)
+                continue
             if _basic_ok(fn):
                 self.helpers[q] = (fn, owner)
         # generator helpers consumed by a `for` statement (generator fusion): module-level, yields only as statements, no return,
         # no try / with around a yield (close() semantics)
         self.gen_helpers = {}
         for q, (fn, owner) in self.funcs.items():
-            if "#" in q or f"{rel}:{q}" in self.inv or owner is not None or fn.decorator_list or fn.args.vararg or fn.args.kwarg:
+            if "#" in q or f"{rel}:{q}" in self.inv or fn.decorator_list or fn.args.vararg or fn.args.kwarg:
                 continue
+            if owner is not None and (f"{rel}:class {owner.name}" not in self.inv or fn.name in self.other_class_methods.get(owner.name, set())
+                                      or not fn.args.args or fn.args.args[0].arg != "self"):
+                continue            # a generator method is fused only for `self.m(..)` inside its own (reference) class
             ys = [x for x in ast.walk(fn) if isinstance(x, (ast.Yield, ast.YieldFrom))]
             if not ys or any(isinstance(x, ast.YieldFrom) for x in ys):
                 continue
@@ -362,7 +383,7 @@ class Inliner:
             bad = any(isinstance(x, (ast.Return, ast.Try, ast.With, ast.FunctionDef, ast.ClassDef, ast.Lambda, ast.Global, ast.Nonlocal, ast.Await)) and x is not fn
                       for x in ast.walk(fn))
             if len(stmts_y) == len(ys) and not bad:
-                self.gen_helpers[q] = (fn, None)
+                self.gen_helpers[q] = (fn, owner)
         # @contextmanager generators consumed by a `with` statement: one yield, at function level or directly inside a try/finally without handlers
         self.cm_helpers = {}
         for q, (fn, owner) in self.funcs.items():
@@ -508,6 +529,8 @@ class Inliner:
         kwonly = [a.arg for a in fn.args.kwonlyargs]
         binding, order = {}, []
         args = list(call.args)
+        if q in self.static:
+            owner = None
         if owner is not None:
             if not pos or pos[0] != "self":
                 raise NotInlinable("method without self")
@@ -575,8 +598,8 @@ class Inliner:
                                       value=ast.Tuple(elts=[copy.deepcopy(a) for a in extra_pos], ctx=ast.Load()), lineno=call.lineno))
         for p in order:
             a = binding[p]
-            if p not in stored and isinstance(a, (ast.Constant, ast.Name)):
-                sub[p] = a
+            if p not in stored and (isinstance(a, (ast.Constant, ast.Name)) or _immutable_literal(a) or _immutable_literal(a, 1)):
+                sub[p] = a          # (a tuple display of constants such as `(-1, 3)` is as good as a constant)
                 ren.pop(p, None)
             elif p not in stored and isinstance(a, ast.Lambda) and self._only_called(fn, p) and not a.args.defaults and not a.args.kw_defaults \
                     and not a.args.vararg and not a.args.kwarg and not a.args.kwonlyargs:
@@ -629,7 +652,20 @@ class Inliner:
         self.inlined[q] = self.inlined.get(q, 0) + 1
         return pre + mod_.body
 
-    def _fuse(self, loop, caller_fn):
+    def _gen_key(self, call, owner):
+        """key of the generator helper a call denotes: `gen(..)` at module level, `self.gen(..)` inside the generator's own class"""
+        if not isinstance(call, ast.Call):
+            return None
+        f = call.func
+        if isinstance(f, ast.Name) and f.id in self.gen_helpers and self.gen_helpers[f.id][1] is None:
+            return f.id
+        if isinstance(f, ast.Attribute) and isinstance(f.value, ast.Name) and f.value.id == "self" and owner is not None:
+            q = f"{owner.name}.{f.attr}"
+            if q in self.gen_helpers:
+                return q
+        return None
+
+    def _fuse(self, loop, caller_fn, owner=None):
         """`for T in gen(args): body`  ->  the generator's body with every `yield v` replaced by `T = v; body` (generator fusion).
         Exact when the consumer body cannot leave the loop early (no break / continue / return of its own)."""
         def escapes(stmts, in_loop=False):
@@ -651,7 +687,9 @@ class Inliner:
             return False
         if escapes(loop.body):
             return None
-        q = loop.iter.func.id
+        q = self._gen_key(loop.iter, owner)
+        if q is None:
+            return None
         saved = self.helpers
         self.helpers = dict(saved)
         self.helpers[q] = self.gen_helpers[q]
@@ -885,9 +923,22 @@ class Inliner:
                     return self._block(new, caller_fn, owner, depth + 1)
                 except NotInlinable:
                     return [s]
-        if isinstance(s, ast.For) and not s.orelse and isinstance(s.iter, ast.Call) and isinstance(s.iter.func, ast.Name) \
-                and s.iter.func.id in self.gen_helpers and s.iter.func.id != getattr(caller_fn, "name", None):
-            fused = self._fuse(s, caller_fn)
+        if isinstance(s, ast.Assign) and len(s.targets) == 1 and _simple(s.targets[0]) and isinstance(s.value, ast.Call) and isinstance(s.value.func, ast.Name) \
+                and s.value.func.id == "list" and len(s.value.args) == 1 and not s.value.keywords and self._gen_key(s.value.args[0], owner) \
+                and self._gen_key(s.value.args[0], owner).split(".")[-1] != getattr(caller_fn, "name", None):
+            # `T = list(gen(..))`  ->  `acc = []; for v in gen(..): acc.append(v); T = acc`, then the loop is fused like any other
+            self.counter += 1
+            acc, v = f"_acc{self.counter}", f"_item{self.counter}"
+            loop = ast.For(target=ast.Name(id=v, ctx=ast.Store()), iter=s.value.args[0],
+                           body=[ast.Expr(value=ast.Call(func=ast.Attribute(value=ast.Name(id=acc, ctx=ast.Load()), attr="append", ctx=ast.Load()),
+                                                         args=[ast.Name(id=v, ctx=ast.Load())], keywords=[]))], orelse=[], lineno=s.lineno)
+            fused = self._fuse(loop, caller_fn, owner)
+            if fused is not None:
+                new = [ast.Assign(targets=[ast.Name(id=acc, ctx=ast.Store())], value=ast.List(elts=[], ctx=ast.Load()), lineno=s.lineno)] + fused + \
+                      [ast.Assign(targets=s.targets, value=ast.Name(id=acc, ctx=ast.Load()), lineno=s.lineno)]
+                return self._block(new, caller_fn, owner, depth + 1)
+        if isinstance(s, ast.For) and not s.orelse and self._gen_key(s.iter, owner) and self._gen_key(s.iter, owner).split(".")[-1] != getattr(caller_fn, "name", None):
+            fused = self._fuse(s, caller_fn, owner)
             if fused is not None:
                 return self._block(fused, caller_fn, owner, depth + 1)
         if isinstance(s, ast.With) and len(s.items) == 1 and isinstance(s.items[0].context_expr, ast.Call) and isinstance(s.items[0].context_expr.func, ast.Name) \
@@ -1454,6 +1505,12 @@ class Normalizer(ast.NodeTransformer):
                 self.count += 1
                 out.append(ast.If(test=self._neg(s.test), body=self._loop_body(rest), orelse=[], lineno=s.lineno))
                 return out
+            if isinstance(s, ast.If) and not s.orelse and len(s.body) >= 2 and isinstance(s.body[-1], ast.Continue) and rest \
+                    and not any(isinstance(x, (ast.Break, ast.Continue, ast.Return)) for b_ in s.body[:-1] for x in ast.walk(b_)):
+                # `if c: A; continue` + rest  ->  `if c: A else: rest`
+                self.count += 1
+                out.append(ast.If(test=s.test, body=s.body[:-1], orelse=self._loop_body(rest), lineno=s.lineno))
+                return out
             out.append(s)
         return out
 
@@ -1582,6 +1639,24 @@ class Normalizer(ast.NodeTransformer):
                         del out[i]
                         self.count += 1
                         continue
+                # N14  `d = {"k": v, ..}` (string keys, names / constants as values; d bound once) whose only use is `f(.., **d)` later in the
+                #      same block, with the value names not rebound in between -> `f(.., k=v, ..)`
+                if isinstance(st, ast.Assign) and len(st.targets) == 1 and isinstance(st.targets[0], ast.Name) and isinstance(st.value, ast.Dict) and st.value.keys \
+                        and all(isinstance(k_, ast.Constant) and isinstance(k_.value, str) and k_.value.isidentifier() for k_ in st.value.keys) \
+                        and all(isinstance(v_, (ast.Name, ast.Constant)) for v_ in st.value.values) and self.fn_stores.get(st.targets[0].id, 0) == 1:
+                    dname = st.targets[0].id
+                    uses = [x for x in ast.walk(fn) if isinstance(x, ast.Name) and x.id == dname and isinstance(x.ctx, ast.Load)]
+                    spread = [(j, c_, k_) for j in range(i + 1, len(out)) for c_ in ast.walk(out[j]) if isinstance(c_, ast.Call)
+                              for k_ in c_.keywords if k_.arg is None and isinstance(k_.value, ast.Name) and k_.value.id == dname]
+                    vnames = {v_.id for v_ in st.value.values if isinstance(v_, ast.Name)}
+                    if len(uses) == 1 and len(spread) == 1 and not stores(out[i + 1:spread[0][0] + 1], vnames) \
+                            and not ({k_.arg for k_ in spread[0][1].keywords if k_.arg} & {k_.value for k_ in st.value.keys}):
+                        j, c_, k_ = spread[0]
+                        pos = c_.keywords.index(k_)
+                        c_.keywords[pos:pos + 1] = [ast.keyword(arg=kk.value, value=copy.deepcopy(vv)) for kk, vv in zip(st.value.keys, st.value.values)]
+                        del out[i]
+                        self.count += 1
+                        continue
                 # N11
                 if isinstance(st, ast.If) and st.body and st.orelse and i + 1 < len(out):
                     nxt, a, b = out[i + 1], st.body[-1], st.orelse[-1]
@@ -1613,6 +1688,27 @@ class Normalizer(ast.NodeTransformer):
                     self.fn_stores[x.id] = self.fn_stores.get(x.id, 0) + 1
             if self.count == before:
                 break
+
+    def _rmw(self, stmts, fn):
+        """N13  `t = A[i]; t op= v; A[i] = t` (t used nowhere else, A and the names of i not rebound in between) -> `A[i] op= v`: the
+        expansion Python itself performs for an augmented assignment to a subscript"""
+        out = list(stmts)
+        k = 0
+        while k + 2 < len(out):
+            a, b, c = out[k], out[k + 1], out[k + 2]
+            if isinstance(a, ast.Assign) and len(a.targets) == 1 and isinstance(a.targets[0], ast.Name) and isinstance(a.value, ast.Subscript) \
+                    and isinstance(b, ast.AugAssign) and isinstance(b.target, ast.Name) and b.target.id == a.targets[0].id \
+                    and isinstance(c, ast.Assign) and len(c.targets) == 1 and isinstance(c.targets[0], ast.Subscript) and isinstance(c.value, ast.Name) \
+                    and c.value.id == a.targets[0].id and ast.unparse(c.targets[0]) == ast.unparse(a.value) and fn is not None:
+                t = a.targets[0].id
+                total = sum(1 for x in ast.walk(fn) if isinstance(x, ast.Name) and x.id == t)
+                used_in_v = any(isinstance(x, ast.Name) and x.id == t for x in ast.walk(b.value))
+                if total == 3 and not used_in_v and _pure(a.value.slice):
+                    out[k:k + 3] = [ast.AugAssign(target=c.targets[0], op=b.op, value=b.value, lineno=a.lineno)]
+                    self.count += 1
+                    continue
+            k += 1
+        return out
 
     def _split_assign(self, stmts):
         """N6  `a, b = x, y` -> `a = x; b = y` when no later value reads an earlier target; `a = b = v` (v a name or constant) -> `a = v; b = v`"""
@@ -1733,9 +1829,28 @@ class Normalizer(ast.NodeTransformer):
             out.append(st)
         return out
 
+    def _ifexp_assign(self, stmts):
+        """N15  `x = A if c else x` -> `if c: x = A` ; `x = x if c else B` -> `if not c: x = B`  (re-binding a name to itself is no operation)"""
+        out = []
+        for st in stmts:
+            if isinstance(st, ast.Assign) and len(st.targets) == 1 and isinstance(st.targets[0], ast.Name) and isinstance(st.value, ast.IfExp):
+                x, v = st.targets[0].id, st.value
+                if isinstance(v.orelse, ast.Name) and v.orelse.id == x and not (isinstance(v.body, ast.Name) and v.body.id == x):
+                    out.append(ast.If(test=v.test, body=[ast.Assign(targets=st.targets, value=v.body, lineno=st.lineno)], orelse=[], lineno=st.lineno))
+                    self.count += 1
+                    continue
+                if isinstance(v.body, ast.Name) and v.body.id == x and not (isinstance(v.orelse, ast.Name) and v.orelse.id == x):
+                    out.append(ast.If(test=self._neg(v.test), body=[ast.Assign(targets=st.targets, value=v.orelse, lineno=st.lineno)], orelse=[], lineno=st.lineno))
+                    self.count += 1
+                    continue
+            out.append(st)
+        return out
+
     def _post(self, blk):
+        blk = self._ifexp_assign(blk)
         blk = self._split_assign(blk)
         fn = getattr(self, "cur_fn", None)
+        blk = self._rmw(blk, fn)
         blk = self._unroll(blk, fn)
 
         def after_ok(i, w, before):
@@ -1786,6 +1901,10 @@ class Normalizer(ast.NodeTransformer):
         self.generic_visit(n)
         if n.orelse and all(isinstance(x, ast.Pass) for x in n.orelse):
             n.orelse = []
+        if isinstance(n.test, ast.Constant) and isinstance(n.test.value, (bool, type(None))):
+            # N12  `if True: A else: B` (a literal flag written into an inlined helper) -> A
+            self.count += 1
+            return (n.body if n.test.value else n.orelse) or [ast.Pass()]
         if hasattr(self, "fn_stores"):
             n.body = self._slice_alias(n.body)
             n.orelse = self._slice_alias(n.orelse) if n.orelse else n.orelse
@@ -1817,9 +1936,12 @@ def _numeric_literal(e):
 
 def _immutable_literal(e, depth=0):
     """a (nested) tuple display of constants: equal wherever it is written out (identity is not observable through the library)"""
+    def const(x):
+        return isinstance(x, ast.Constant) or (isinstance(x, ast.UnaryOp) and isinstance(x.op, (ast.USub, ast.UAdd)) and isinstance(x.operand, ast.Constant)
+                                                and isinstance(x.operand.value, (int, float)))
     if isinstance(e, ast.Tuple) and depth < 3:
-        return bool(e.elts) and all(isinstance(x, ast.Constant) or _immutable_literal(x, depth + 1) for x in e.elts)
-    return False
+        return bool(e.elts) and all(const(x) or _immutable_literal(x, depth + 1) for x in e.elts)
+    return depth > 0 and const(e)
 
 
 def fold_literal_factories(tree, rel, inv):
@@ -2089,6 +2211,28 @@ def build_inlined_tree(src_root, dst_root):
                         t.body.insert(0, t.body.pop(1))
                 changed.add(rel)
                 report.setdefault("constants_folded", []).append(f"{rel}:{name}")
+    # module-level `NAME = {"k": <literal>, ..}` that is not part of the reference tree and is only ever spread into calls: `f(x, **NAME)` -> `f(x, k=.., ..)`
+    for rel, t in trees.items():
+        for n in list(t.body):
+            if not (isinstance(n, ast.Assign) and len(n.targets) == 1 and isinstance(n.targets[0], ast.Name) and f"{rel}:const {n.targets[0].id}" not in inv
+                    and isinstance(n.value, ast.Dict) and n.value.keys
+                    and all(isinstance(k_, ast.Constant) and isinstance(k_.value, str) and k_.value.isidentifier() for k_ in n.value.keys)
+                    and all(isinstance(v_, ast.Constant) or _immutable_literal(v_) or _immutable_literal(v_, 1) for v_ in n.value.values)):
+                continue
+            name = n.targets[0].id
+            occ = [x for x in ast.walk(t) if isinstance(x, ast.Name) and x.id == name]
+            spreads = [(c_, k_) for c_ in ast.walk(t) if isinstance(c_, ast.Call) for k_ in c_.keywords
+                       if k_.arg is None and isinstance(k_.value, ast.Name) and k_.value.id == name]
+            if len(occ) != 1 + len(spreads) or not spreads or _referenced([tr for r2, tr in trees.items() if r2 != rel], name):
+                continue
+            if any({k2.arg for k2 in c_.keywords if k2.arg} & {k_.value for k_ in n.value.keys} for c_, _k in spreads):
+                continue
+            for c_, k_ in spreads:
+                pos = c_.keywords.index(k_)
+                c_.keywords[pos:pos + 1] = [ast.keyword(arg=kk.value, value=copy.deepcopy(vv)) for kk, vv in zip(n.value.keys, n.value.values)]
+            t.body.remove(n)
+            changed.add(rel)
+            report.setdefault("constants_folded", []).append(f"{rel}:{name}")
     # module-level `name = functools.partial(f, a.., k=v..)` that is not part of the reference tree: calls `name(b.., k2=..)` -> `f(a.., b.., k=v.., k2=..)`
     for rel, t in trees.items():
         for n in list(t.body):
